@@ -9,7 +9,7 @@ along edges (acyclicity of the recorded graph, invariant OWN).
  ensures   the same predicates on the new state;  SEEN subset SEEN';  t non-constant => t in SEEN'
            positions of old members unchanged; every new member is strictly left of every old member
            every new member u is non-constant, has rank[u] <= rank[t], and u._grad = u._view_grad = None
-           t._grad = t._view_grad = None;  no other gradient, no other field of any object is written
+           t._grad = t._view_grad = None;  gradients are only ever set to None (never otherwise written); no other field of any object is written
  decreases rank[t]   (each recursive call is made on an input of t)
 The recursive calls inside the loop over creator.variables are replaced by this contract (induction);
 the loop carries the invariant listed in `INV` below.  VCs are quantifier-free: goals at skolems (u*, w*, j*),
@@ -37,8 +37,8 @@ Q = f"{UT}:collect_all_tensors_and_clear_grads"
 class St:
     """ghost + heap state relevant to the contract"""
 
-    def __init__(self, seen, pos, left, g, vg):
-        self.seen, self.pos, self.left, self.g, self.vg = seen, pos, left, g, vg
+    def __init__(self, seen, pos, left, g, vg, right=None):
+        self.seen, self.pos, self.left, self.g, self.vg, self.right = seen, pos, left, g, vg, right
 
 
 def harness(ctx: Ctx):
@@ -68,7 +68,7 @@ def harness(ctx: Ctx):
 
     # ---- ghost state objects handed to the function ------------------------------------------------------
     seen = SymIntSet(ctx, "SEEN")
-    ghost = {"pos": z3.Array("POS", I, I), "left": z3.Int("LEFT")}
+    ghost = {"pos": z3.Array("POS", I, I), "left": z3.Int("LEFT"), "right": z3.Int("RIGHT")}
 
     class Deque:
         def __sym_getattr__(self, interp_, name):
@@ -80,14 +80,16 @@ def harness(ctx: Ctx):
                 return appendleft
             if name == "append":
                 def append(x):
-                    raise Unsupported("deque.append: positions to the right are not modelled (contract requires appendleft)")
+                    ghost["pos"] = z3.Store(ghost["pos"], x.ref, ghost["right"])
+                    ghost["right"] = ghost["right"] + 1
+                    ctx.ghost.setdefault("appended", []).append(x.ref)
                 return append
             raise Unsupported(f"deque.{name}")
 
     topo = Deque()
 
     def cur():
-        return St(seen.mem, ghost["pos"], ghost["left"], ctx.heap[("Tensor", "_grad")], ctx.heap[("Tensor", "_view_grad")])
+        return St(seen.mem, ghost["pos"], ghost["left"], ctx.heap[("Tensor", "_grad")], ctx.heap[("Tensor", "_view_grad")], ghost["right"])
 
     S0 = cur()
 
@@ -105,7 +107,7 @@ def harness(ctx: Ctx):
         return [
             ("closed", "UJ", lambda u, j: z3.Implies(z3.And(S.seen[u], dep(u, j)), S.seen[inp(u, j)])),
             ("topo", "UJ", lambda u, j: z3.Implies(z3.And(S.seen[u], dep(u, j)), S.pos[u] < S.pos[inp(u, j)])),
-            ("left_bound", "U", lambda u: z3.Implies(S.seen[u], S.pos[u] >= S.left)),
+            ("left_bound", "U", lambda u: z3.Implies(S.seen[u], z3.And(S.pos[u] >= S.left, S.pos[u] < S.right))),
             ("distinct", "UW", lambda u, w: z3.Implies(z3.And(S.seen[u], S.seen[w], u != w), S.pos[u] != S.pos[w])),
             ("members_nonconstant", "U", lambda u: z3.Implies(S.seen[u], z3.And(z3.Not(const[u]), u >= 1))),
         ]
@@ -123,16 +125,17 @@ def harness(ctx: Ctx):
             ("old_positions_kept", "U", lambda u: z3.Implies(A.seen[u], B.pos[u] == A.pos[u])),
             ("new_left_of_old", "U", lambda u: z3.Implies(new(u), z3.And(B.pos[u] < A.left, B.pos[u] >= B.left))),
             ("new_members", "U", lambda u: z3.Implies(new(u), z3.And(z3.Not(const[u]), rank[u] <= rank[c], B.g[u] == 0, B.vg[u] == 0))),
-            ("frame_grads", "U", lambda u: z3.Implies(z3.And(z3.Not(new(u)), u != c), z3.And(B.g[u] == A.g[u], B.vg[u] == A.vg[u]))),
+            # every visited tensor (also constants and already-seen ones) has its gradient nulled; nothing else is written
+            ("grads_only_nulled", "U", lambda u: z3.And(z3.Or(B.g[u] == A.g[u], B.g[u] == 0), z3.Or(B.vg[u] == A.vg[u], B.vg[u] == 0))),
         ], [
-            ("left_monotone", B.left <= A.left),
+            ("left_monotone", z3.And(B.left <= A.left, B.right == A.right, B.left <= B.right)),
             ("receiver_member", z3.Implies(z3.Not(const[c]), B.seen[c])),
             ("receiver_grads_none", z3.And(B.g[c] == 0, B.vg[c] == 0)),
         ]
 
     def terms(extra=()):
         T = [uS, wS, t] + list(extra)
-        T += [inp(uS, jS)]
+        T += [inp(uS, jS), inp(t, jS)]
         return T
 
     def inst(clauses, T, J):
@@ -158,6 +161,7 @@ def harness(ctx: Ctx):
         return out
 
     # ---- requires ---------------------------------------------------------------------------------------------
+    ctx.assume(S0.left <= S0.right)
     base_J = [jS]
     for f_ in inst(WF(S0) + GRAPH, terms(), base_J):
         ctx.assume(f_)
@@ -183,6 +187,7 @@ def harness(ctx: Ctx):
         ctx.fresh_n += 1
         ghost["pos"] = z3.Array(f"POS!{ctx.fresh_n + 1}", I, I)
         ghost["left"] = ctx.fresh("LEFT", "int")
+        ghost["right"] = ctx.fresh("RIGHT", "int")
         ctx.havoc_field("Tensor", "_grad")
         ctx.havoc_field("Tensor", "_view_grad")
         B = cur()
@@ -213,7 +218,7 @@ def harness(ctx: Ctx):
             ("inputs_done", "J", lambda j: z3.Implies(z3.And(0 <= j, j < k, z3.Not(const[inp(t, j)])), S.seen[inp(t, j)])),
             ("new_rank_below_t", "U", lambda u: z3.Implies(z3.And(S.seen[u], z3.Not(S0.seen[u])), rank[u] < rank[t])),
         ]
-        ground2 = [("left_monotone", S.left <= S0.left), ("t_not_yet_member", z3.Not(S.seen[t])), ("t_grads_none", z3.And(S.g[t] == 0, S.vg[t] == 0)),
+        ground2 = [("left_monotone", z3.And(S.left <= S0.left, S.right == S0.right, S.left <= S.right)), ("t_not_yet_member", z3.Not(S.seen[t])), ("t_grads_none", z3.And(S.g[t] == 0, S.vg[t] == 0)),
                    ("frame_other_fields", z3.And(*[ctx.heap[key] == val for key, val in frames0.items()]))]
         return S, [c_ for c_ in cl if c_[0] != "new_members"] + [("new_members", "U", lambda u: z3.Implies(z3.And(S.seen[u], z3.Not(S0.seen[u])), z3.And(z3.Not(const[u]), S.g[u] == 0, S.vg[u] == 0)))] + WF(S), extra, ground2
 
@@ -221,7 +226,7 @@ def harness(ctx: Ctx):
 
     def inv_goals(interp_, env, k):
         if "S" not in S0_after_null:
-            S0_after_null["S"] = St(S0.seen, S0.pos, S0.left, ctx.heap[("Tensor", "_grad")], ctx.heap[("Tensor", "_view_grad")])
+            S0_after_null["S"] = St(S0.seen, S0.pos, S0.left, ctx.heap[("Tensor", "_grad")], ctx.heap[("Tensor", "_view_grad")], S0.right)
         S, cl, extra, ground = INV(k)
         out = list(ground) + goals(cl)
         out += [(nm, fn(jS)) for nm, kinds, fn in extra if kinds == "J"]
@@ -250,6 +255,7 @@ def harness(ctx: Ctx):
         ctx.fresh_n += 1
         ghost["pos"] = z3.Array(f"POS!{ctx.fresh_n + 1}", I, I)
         ghost["left"] = ctx.fresh("LEFT", "int")
+        ghost["right"] = ctx.fresh("RIGHT", "int")
 
     spec = LoopSpec(invariant=inv_goals, modifies=("t_loop",), heap_modifies=[("Tensor", "_grad"), ("Tensor", "_view_grad")], havoc=havoc)
     spec.assume_invariant = inv_hyps
@@ -262,7 +268,7 @@ def harness(ctx: Ctx):
         ctx.oblige("C01.topo.no_exception", False, raised=e.exc.cls_name(), **meta)
         return
     Sf = cur()
-    A = St(S0.seen, S0.pos, S0.left, S0.g, S0.vg)
+    A = St(S0.seen, S0.pos, S0.left, S0.g, S0.vg, S0.right)
     cl, ground = POST(A, Sf, t)
     # the final-state hypotheses: loop's Inv(n) has been instantiated at the skolems by the loop rule (or the early-return paths have no loop)
     for nm, fml in goals(cl + WF(Sf)):
